@@ -11,10 +11,10 @@ LOG="$D/confirm.log"; : > "$LOG"
 cd "$WT"
 cp "$D/demo_test.go" "$DEST"
 echo "== demo WITHOUT patch (expect PASS)" >> "$LOG"
-go test -vet=off -count=1 "$PKG" -run "$RUN" >> "$LOG" 2>&1; a=$?
+go test -vet=off -count=1 "$PKG" -run "$RUN" ${SEED_EXTRA:-} >> "$LOG" 2>&1; a=$?
 git apply "$D/patch.diff" || { echo "patch failed" >> "$LOG"; git -C /repo worktree remove --force "$WT"; exit 2; }
 echo "== demo WITH patch (expect FAIL)" >> "$LOG"
-go test -vet=off -count=1 "$PKG" -run "$RUN" >> "$LOG" 2>&1; b=$?
+go test -vet=off -count=1 "$PKG" -run "$RUN" ${SEED_EXTRA:-} >> "$LOG" 2>&1; b=$?
 rm -f "$DEST"
 echo "== existing tests WITH patch (expect PASS): $*" >> "$LOG"
 go build ./... >> "$LOG" 2>&1; c0=$?
